@@ -6,14 +6,14 @@ Local Open Scope Z_scope.
 
 Section SegArrProofs.
 Variables mgr segsz : Z.
-Variable segcap : nat.
+Variable segcapf : nat -> nat.
 Variable f : loc -> bool.
 Variable bs : list (Z * (Z * Z)).
 Variables nb0 src : Z.
 Hypothesis Hcl : forall l, nb0 <= fst l -> f l = false.
 Hypothesis Hsr : forall x, 0 <= x -> f (src, x) = true.
 
-Notation inr := (in_rows segcap false).
+Notation inr := in_rows.
 Notation rbl := (rblks mgr segsz).
 
 Definition cur_occ (cur : option (Z * nat)) (l : loc) : bool :=
@@ -24,21 +24,21 @@ Definition cur_blk (cur : option (Z * nat)) : list (Z * (Z * Z)) :=
 Definition sa_inv (st : sa_state) (s : rstate) (nb : Z) : Prop :=
   st_is s (fun l => cur_occ (snd st) l || (inr (fst st) l || f l)) (cur_blk (snd st) ++ rbl (fst st) ++ bs) nb /\
   dlist (cur_blk (snd st) ++ rbl (fst st) ++ bs) nb /\
-  Forall (fun r => nb0 <= r) (fst st) /\ nb0 <= nb /\
-  match snd st with Some (seg, fill) => nb0 <= seg /\ (fill <= segcap)%nat | None => True end.
+  Forall (fun rw => nb0 <= fst rw) (fst st) /\ nb0 <= nb /\
+  match snd st with Some (seg, fill) => nb0 <= seg /\ (fill <= segcapf (length (fst st)))%nat | None => True end.
 
 Lemma olds_clear_at olds seg tail nb l :
   dlist ((seg, (mgr, segsz)) :: rbl olds ++ tail) nb -> nb0 <= seg -> fst l = seg -> inr olds l || f l = false.
 Proof.
   intros [_ Dr] Hs El. rewrite (Hcl l) by lia. rewrite orb_false_r. apply in_rows_other. intros r Hin.
-  assert (r < seg). { apply (dlist_fresh _ seg Dr r (mgr, segsz)). apply in_or_app. left. unfold rblks.
-                      apply in_map_iff. exists r. split; [reflexivity|exact Hin]. }
+  assert (fst r < seg). { apply (dlist_fresh _ seg Dr (fst r) (mgr, segsz)). apply in_or_app. left. unfold rblks.
+                          apply in_map_iff. exists r. split; [reflexivity|exact Hin]. }
   lia.
 Qed.
 
 (* constructing one more item in the current segment *)
 Lemma sa_put olds seg fill i s nb :
-  0 <= i -> (fill < segcap)%nat -> sa_inv (olds, Some (seg, fill)) s nb ->
+  0 <= i -> (fill < segcapf (length olds))%nat -> sa_inv (olds, Some (seg, fill)) s nb ->
   match p_copy (seg, Z.of_nat fill) (src, i) s with
   | (Val _, s') => sa_inv (olds, Some (seg, S fill)) s' nb
   | (Exc, s') => sa_inv (olds, Some (seg, fill)) s' nb
@@ -54,16 +54,16 @@ Proof.
     destruct (inrng_spec seg 0 fill (seg, Z.of_nat fill)) as [[_ Eb]|]; [simpl in Eb; lia|reflexivity]. }
   specialize (P E1 E2). unfold post in P.
   destruct (p_copy (seg, Z.of_nat fill) (src, i) s) as [[u| |] s']; [| |contradiction].
-  - split; [|split; [exact D|split; [exact Hge|split; [exact Hn|split; [exact Hs|lia]]]]]. cbn [fst snd].
+  - split; [|split; [exact D|split; [exact Hge|split; [exact Hn|split; [exact Hs|cbn [fst snd]; lia]]]]]. cbn [fst snd].
     eapply st_is_ext; [|exact P]. intros l. cbn [cur_occ].
     pose proof (inrng_snoc seg 0 fill l) as E. rewrite Z.add_0_l in E. rewrite E.
     destruct (loc_eqb l (seg, Z.of_nat fill)), (inrng seg 0 fill l), (inr olds l), (f l); reflexivity.
-  - split; [exact P|]. split; [exact D|]. split; [exact Hge|]. split; [exact Hn|]. split; [exact Hs|lia].
+  - split; [exact P|]. split; [exact D|]. split; [exact Hge|]. split; [exact Hn|]. split; [exact Hs|cbn [fst snd]; lia].
 Qed.
 
 Lemma sa_fill_spec : forall n i st s nb,
-  0 <= i -> (0 < segcap)%nat -> sa_inv st s nb ->
-  match sa_fill mgr segsz segcap src i n st s with
+  0 <= i -> (forall k, 0 < segcapf k)%nat -> sa_inv st s nb ->
+  match sa_fill mgr segsz segcapf src i n st s with
   | ((_, Stuck), _) => False
   | ((st', _), s') => exists nb', sa_inv st' s' nb'
   end.
@@ -71,26 +71,26 @@ Proof.
   induction n as [|n IH]; intros i [olds cur] s nb Hi Hcap I; simpl.
   - exists nb. exact I.
   - destruct cur as [[seg fill]|].
-    + destruct (Nat.ltb_spec fill segcap) as [Hlt|Hge'].
+    + destruct (Nat.ltb_spec fill (segcapf (length olds))) as [Hlt|Hge'].
       * pose proof (sa_put olds seg fill i s nb Hi Hlt I) as P.
         destruct (p_copy (seg, Z.of_nat fill) (src, i) s) as [[u| |] s2]; [| |contradiction].
         -- apply (IH (i + 1) (olds, Some (seg, S fill)) s2 nb); [lia|exact Hcap|exact P].
         -- exists nb. exact P.
       * (* the current segment is full: a new one *)
         pose proof I as (H & D & Hge & Hn & Hs & Hf). cbn [fst snd] in *.
-        assert (Efill : fill = segcap) by lia. subst fill.
+        assert (Efill : fill = segcapf (length olds)) by lia.
         pose proof (p_alloc_post mgr segsz s _ _ nb H) as A. unfold post in A.
         destruct (p_alloc mgr segsz s) as [[sg| |] s1]; [| |contradiction].
-        2:{ exists nb. split; [exact A|]. split; [exact D|]. split; [exact Hge|]. split; [exact Hn|]. split; [exact Hs|lia]. }
+        2:{ exists nb. split; [exact A|]. split; [exact D|]. split; [exact Hge|]. split; [exact Hn|]. split; [exact Hs|cbn [fst snd]; lia]. }
         destruct A as [Eg H1]. subst sg.
-        assert (I1 : sa_inv (seg :: olds, Some (nb, O)) s1 (nb + 1)).
-        { split; [|split; [apply (dlist_cons _ nb (mgr, segsz)); exact D|split; [constructor; [exact Hs|exact Hge]|split; [lia|split; lia]]]].
+        assert (I1 : sa_inv ((seg, fill) :: olds, Some (nb, O)) s1 (nb + 1)).
+        { split; [|split; [apply (dlist_cons _ nb (mgr, segsz)); exact D|split; [constructor; [exact Hs|exact Hge]|split; [lia|split; [lia|cbn [fst snd]; lia]]]]].
           cbn [fst snd cur_occ cur_blk]. eapply st_is_ext; [|exact H1]. intros l. cbn [cur_occ]. rewrite inrng_0. simpl orb.
-          unfold in_rows. simpl existsb. unfold width. rewrite Nat.add_0_r. rewrite orb_assoc. reflexivity. }
-        pose proof (sa_put (seg :: olds) nb O i s1 (nb + 1) Hi Hcap I1) as P.
+          unfold in_rows. simpl existsb. rewrite orb_assoc. reflexivity. }
+        pose proof (sa_put ((seg, fill) :: olds) nb O i s1 (nb + 1) Hi (Hcap _) I1) as P.
         change (Z.of_nat 0) with 0 in *.
         destruct (p_copy (nb, 0) (src, i) s1) as [[u| |] s2]; [| |contradiction].
-        -- apply (IH (i + 1) (seg :: olds, Some (nb, 1%nat)) s2 (nb + 1)); [lia|exact Hcap|exact P].
+        -- apply (IH (i + 1) ((seg, fill) :: olds, Some (nb, 1%nat)) s2 (nb + 1)); [lia|exact Hcap|exact P].
         -- exists (nb + 1). exact P.
     + (* no segment yet *)
       pose proof I as (H & D & Hge & Hn & _). cbn [fst snd cur_occ cur_blk] in *. simpl app in H, D.
@@ -99,9 +99,9 @@ Proof.
       2:{ exists nb. split; [exact A|]. split; [exact D|]. split; [exact Hge|]. split; [exact Hn|simpl; exact Coq.Init.Logic.I]. }
       destruct A as [Eg H1]. subst sg.
       assert (I1 : sa_inv (olds, Some (nb, O)) s1 (nb + 1)).
-      { split; [|split; [apply (dlist_cons _ nb (mgr, segsz)); exact D|split; [exact Hge|split; [lia|split; lia]]]].
+      { split; [|split; [apply (dlist_cons _ nb (mgr, segsz)); exact D|split; [exact Hge|split; [lia|split; [lia|cbn [fst snd]; lia]]]]].
         cbn [fst snd cur_occ cur_blk]. eapply st_is_ext; [|exact H1]. intros l. rewrite inrng_0. reflexivity. }
-      pose proof (sa_put olds nb O i s1 (nb + 1) Hi Hcap I1) as P.
+      pose proof (sa_put olds nb O i s1 (nb + 1) Hi (Hcap _) I1) as P.
       change (Z.of_nat 0) with 0 in *.
       destruct (p_copy (nb, 0) (src, i) s1) as [[u| |] s2]; [| |contradiction].
       * apply (IH (i + 1) (olds, Some (nb, 1%nat)) s2 (nb + 1)); [lia|exact Hcap|exact P].
@@ -110,14 +110,14 @@ Qed.
 
 Lemma sa_clear_post st s nb :
   sa_inv st s nb ->
-  post (sa_clear mgr segsz segcap st) s (fun _ s' => st_is s' f bs nb /\ dlist bs nb) (fun _ => False).
+  post (sa_clear mgr segsz st) s (fun _ s' => st_is s' f bs nb /\ dlist bs nb) (fun _ => False).
 Proof.
   destruct st as [olds cur]. intros (H & D & Hge & Hn & Hc). cbn [fst snd] in *. unfold sa_clear. cbn [fst snd].
   apply post_bind.
   assert (Rest : forall s1, st_is s1 (fun l => inr olds l || f l) (rbl olds ++ bs) nb -> dlist (rbl olds ++ bs) nb ->
-            post (drop_rows mgr segsz segcap false olds) s1 (fun _ s' => st_is s' f bs nb /\ dlist bs nb) (fun _ => False)).
+            post (drop_rows mgr segsz olds) s1 (fun _ s' => st_is s' f bs nb /\ dlist bs nb) (fun _ => False)).
   { intros s1 H1 D1.
-    eapply post_conseq; [apply (drop_rows_post mgr segsz segcap false f bs nb0 Hcl olds s1 nb)| |auto].
+    eapply post_conseq; [apply (drop_rows_post mgr segsz f bs nb0 Hcl olds s1 nb)| |auto].
     - split; [exact H1|]. split; [exact D1|]. split; [exact Hge|exact Hn].
     - intros u s2 (A & B & _). simpl app in A, B. split; assumption. }
   destruct cur as [[seg fill]|].
@@ -134,42 +134,42 @@ End SegArrProofs.
 
 (* SegmentedArray(begin, end, memManager) + ~SegmentedArray: every schedule, every item count, every segment capacity >= 1:
    never Stuck, every item destroyed once, every segment returned once, the world ends as it started *)
-Theorem sa_ctor_then_destroy_post mgr segsz segcap src kr n s f bs :
-  (0 < segcap)%nat -> rows_world s f bs src kr ->
-  post (sa_ctor_then_destroy mgr segsz segcap src n) s
+Theorem sa_ctor_then_destroy_post mgr segsz segcapf src kr n s f bs :
+  (forall k, 0 < segcapf k)%nat -> rows_world s f bs src kr ->
+  post (sa_ctor_then_destroy mgr segsz segcapf src n) s
        (fun _ s' => st_is s' f bs (nextb s')) (fun s' => st_is s' f bs (nextb s')).
 Proof.
   intros Hcap (H & D & Hcl & Hsr & _). unfold sa_ctor_then_destroy, post.
-  assert (I0 : sa_inv mgr segsz segcap f bs (nextb s) ([], None) s (nextb s)).
+  assert (I0 : sa_inv mgr segsz segcapf f bs (nextb s) ([], None) s (nextb s)).
   { split; [exact H|]. split; [exact D|]. split; [constructor|]. split; [lia|exact I]. }
-  pose proof (sa_fill_spec mgr segsz segcap f bs (nextb s) src Hcl Hsr n 0 ([], None) s (nextb s) (Z.le_refl 0) Hcap I0) as F.
-  destruct (sa_fill mgr segsz segcap src 0 n ([], None) s) as [[st o] s1].
-  assert (Clr : forall st2 s2 nb2, sa_inv mgr segsz segcap f bs (nextb s) st2 s2 nb2 ->
-            match sa_clear mgr segsz segcap st2 s2 with
+  pose proof (sa_fill_spec mgr segsz segcapf f bs (nextb s) src Hcl Hsr n 0 ([], None) s (nextb s) (Z.le_refl 0) Hcap I0) as F.
+  destruct (sa_fill mgr segsz segcapf src 0 n ([], None) s) as [[st o] s1].
+  assert (Clr : forall st2 s2 nb2, sa_inv mgr segsz segcapf f bs (nextb s) st2 s2 nb2 ->
+            match sa_clear mgr segsz st2 s2 with
             | (Stuck, _) => False
             | (_, s3) => st_is s3 f bs nb2 /\ dlist bs nb2 /\ nextb s3 = nb2
             end).
-  { intros st2 s2 nb2 I2. pose proof (sa_clear_post mgr segsz segcap f bs (nextb s) Hcl st2 s2 nb2 I2) as P. unfold post in P.
-    destruct (sa_clear mgr segsz segcap st2 s2) as [[u| |] s3]; try contradiction.
+  { intros st2 s2 nb2 I2. pose proof (sa_clear_post mgr segsz segcapf f bs (nextb s) Hcl st2 s2 nb2 I2) as P. unfold post in P.
+    destruct (sa_clear mgr segsz st2 s2) as [[u| |] s3]; try contradiction.
     destruct P as [A B]. split; [exact A|]. split; [exact B|]. destruct A as (_ & _ & C). exact C. }
   destruct o as [u| |]; [| |contradiction]; destruct F as [nb1 I1].
-  - specialize (Clr st s1 nb1 I1). destruct (sa_clear mgr segsz segcap st s1) as [[u'| |] s3]; try contradiction;
+  - specialize (Clr st s1 nb1 I1). destruct (sa_clear mgr segsz st s1) as [[u'| |] s3]; try contradiction;
       destruct Clr as (A & _ & C); rewrite C; exact A.
-  - pose proof (Clr st s1 nb1 I1) as C1. destruct (sa_clear mgr segsz segcap st s1) as [[u'| |] s2]; try contradiction;
+  - pose proof (Clr st s1 nb1 I1) as C1. destruct (sa_clear mgr segsz st s1) as [[u'| |] s2]; try contradiction;
       destruct C1 as (A & B & C);
-      (assert (I2 : sa_inv mgr segsz segcap f bs (nextb s) ([], None) s2 nb1)
+      (assert (I2 : sa_inv mgr segsz segcapf f bs (nextb s) ([], None) s2 nb1)
          by (split; [exact A|split; [exact B|split; [constructor|split; [destruct I1 as (_ & _ & _ & ? & _); assumption|exact I]]]]));
       pose proof (Clr ([], None) s2 nb1 I2) as C2;
-      destruct (sa_clear mgr segsz segcap ([], None) s2) as [[u''| |] s3]; try contradiction;
+      destruct (sa_clear mgr segsz ([], None) s2) as [[u''| |] s3]; try contradiction;
       destruct C2 as (A2 & _ & C2'); rewrite C2'; exact A2.
 Qed.
 
-Theorem sa_ctor_any_schedule mgr segsz segcap n sch :
-  (0 < segcap)%nat ->
-  post (sa_ctor_then_destroy mgr segsz segcap (-1) n) (rows_init sch)
+Theorem sa_ctor_any_schedule mgr segsz segcapf n sch :
+  (forall k, 0 < segcapf k)%nat ->
+  post (sa_ctor_then_destroy mgr segsz segcapf (-1) n) (rows_init sch)
        (fun _ s' => back_to_start s') (fun s' => back_to_start s').
 Proof.
-  intros Hcap. eapply post_conseq; [apply (sa_ctor_then_destroy_post mgr segsz segcap (-1) (-2) n _ _ _ Hcap (rows_init_world sch))| |].
+  intros Hcap. eapply post_conseq; [apply (sa_ctor_then_destroy_post mgr segsz segcapf (-1) (-2) n _ _ _ Hcap (rows_init_world sch))| |].
   - intros u s' (A & B & _). split; [exact B|exact A].
   - intros s' (A & B & _). split; [exact B|exact A].
 Qed.
@@ -484,6 +484,20 @@ Proof.
     destruct o; try contradiction; destruct A as [nb1 I1]; apply (IH (i + 1) t' s1 nb1); try lia; exact I1.
 Qed.
 
+Lemma hs_adds_auto_spec capf : forall n i t s nb,
+  0 <= i -> tb_inv t s nb ->
+  match hs_adds_auto c mgr gensz capf n src i t s with
+  | ((_, Stuck), _) => False
+  | ((t', _), s') => exists nb', tb_inv t' s' nb'
+  end.
+Proof.
+  induction n as [|n IH]; intros i t s nb Hi I; simpl.
+  - exists nb. exact I.
+  - pose proof (hs_add_spec (negb (Nat.ltb (tb_count t) (capf (g_no (fst t))))) i t s nb Hi I) as A. unfold ok_result in A.
+    destruct (hs_add c mgr gensz (negb (Nat.ltb (tb_count t) (capf (g_no (fst t))))) (src, i) t s) as [[t' o] s1].
+    destruct o; try contradiction; destruct A as [nb1 I1]; apply (IH (i + 1) t' s1 nb1); try lia; exact I1.
+Qed.
+
 (* ~HashSet: every generation still linked is emptied and returned, newest first *)
 Lemma gens_destroy_post : forall gs s nb,
   st_is s (fun l => gens_occ gs l || f l) (gens_blks gs ++ bs) nb -> dlist (gens_blks gs ++ bs) nb ->
@@ -548,4 +562,33 @@ Proof.
   eapply post_conseq; [apply (hs_history_post c mgr gensz ops (-1) (-2) _ _ _ (rows_init_world sch))| |].
   - intros u s' (A & B & _). split; [exact B|exact A].
   - intros s' (A & B & _). split; [exact B|exact A].
+Qed.
+
+(* the same with the growth points derived from the capacity policy (any policy capf): n insertions, every schedule *)
+Theorem hs_history_auto_post c mgr gensz capf n src kr s f bs :
+  rows_world s f bs src kr ->
+  post (hs_history_auto c mgr gensz capf n src) s (fun _ s' => st_is s' f bs (nextb s')) (fun s' => st_is s' f bs (nextb s')).
+Proof.
+  intros (H & D & Hcl & Hsr & _). unfold hs_history_auto, post. set (nb := nextb s) in *.
+  pose proof (p_alloc_post mgr (gensz 0) s f bs nb H) as A. unfold post in A.
+  destruct (p_alloc mgr (gensz 0) s) as [[b| |] s0]; [| |contradiction].
+  2:{ destruct A as (X & Y & Zc). rewrite Zc. repeat split; auto. }
+  destruct A as [Eb H0]. subst b.
+  assert (I0 : tb_inv mgr gensz f bs nb ((nb, O, 0), []) s0 (nb + 1)).
+  { split; [|split; [apply (dlist_cons _ nb (mgr, gensz 0)); exact D|split; [constructor; [unfold g_blk; simpl; lia|constructor]|lia]]].
+    cbn [fst snd]. eapply st_is_ext; [|exact H0]. intros l. simpl. unfold gocc, g_blk, g_fill. cbn [fst snd]. rewrite inrng_0. reflexivity. }
+  pose proof (hs_adds_auto_spec c mgr gensz f bs nb src Hcl Hsr capf n 0 _ s0 (nb + 1) (Z.le_refl 0) I0) as F.
+  destruct (hs_adds_auto c mgr gensz capf n src 0 ((nb, 0%nat, 0), []) s0) as [[t o] s1].
+  assert (Fin : forall nb1, tb_inv mgr gensz f bs nb t s1 nb1 ->
+            match hs_destroy mgr gensz t s1 with (Stuck, _) => False | (_, s2) => st_is s2 f bs (nextb s2) end).
+  { intros nb1 (X & Y & Zg & _). unfold hs_destroy.
+    assert (X' : st_is s1 (fun l => gens_occ (fst t :: rev (snd t)) l || f l) (gens_blks mgr gensz (fst t :: rev (snd t)) ++ bs) nb1).
+    { eapply st_is_ext; [|exact X]. intros l. simpl. rewrite gens_occ_rev. reflexivity. }
+    assert (Zg' : Forall (fun g => nb <= g_blk g) (fst t :: rev (snd t))).
+    { inversion Zg; subst. constructor; [assumption|]. apply Forall_rev. assumption. }
+    pose proof (gens_destroy_post mgr gensz f bs nb Hcl _ s1 nb1 X' Y Zg') as P. unfold post in P.
+    destruct (gens_destroy mgr gensz (fst t :: rev (snd t)) s1) as [[u| |] s2]; try contradiction.
+    destruct P as (P1 & P2 & P3). rewrite P3. repeat split; auto. }
+  destruct o; try contradiction; destruct F as [nb1 I1]; specialize (Fin nb1 I1);
+    destruct (hs_destroy mgr gensz t s1) as [[u| |] s2]; try contradiction; exact Fin.
 Qed.
